@@ -94,23 +94,29 @@ func runCase(t *testing.T, run *core.Run, name string, idx int, rng *rand.Rand) 
 			t.Fatalf("%s: read-only %d: %v", name, h, e)
 		}
 		raw, er := refs.RawValidators(ro)
+		// the caps in force at that height, read from the raw state of that height (NOT through the state machine view whose
+		// answers are being judged)
+		pbz, pe := ro.Get(fsm.KeyForParams(fsm.ParamSpaceVal))
 		ro.Discard()
 		if er != nil {
 			t.Fatalf("%s: raw scan %d: %v", name, h, er)
 		}
+		pv := new(fsm.ValidatorParams)
+		if pe != nil || lib.Unmarshal(pbz, pv) != nil || pv.MaxCommitteeSize == 0 {
+			t.Fatalf("%s: raw validator params at %d: %v", name, h, pe)
+		}
 		tm, e := nd.C.FSM.TimeMachine(h)
 		if e != nil {
 			t.Fatalf("%s: time machine %d: %v", name, h, e)
-		}
-		pv, e := tm.GetParamsVal()
-		if e != nil {
-			t.Fatalf("%s: params %d: %v", name, h, e)
 		}
 		defer func() {
 			if tm != nd.C.FSM {
 				tm.Discard()
 			}
 		}()
+		if lp, e := nd.C.FSM.GetParamsVal(); e == nil && (lp.MaxCommitteeSize != pv.MaxCommitteeSize || lp.MaximumDelegatesPerCommittee != pv.MaximumDelegatesPerCommittee) {
+			run.Count("past_heights_queried_under_other_caps_than_now", 1)
+		}
 		for _, c := range chains {
 			want := refs.Committee(raw, c, false, pv.MaxCommitteeSize)
 			wantDel := refs.Committee(raw, c, true, pv.MaximumDelegatesPerCommittee)
